@@ -27,7 +27,7 @@ theorem Pres.procBody (h : StepInv I cfg) (p : Proc) (ps : PState) : Pres I (pro
 theorem Pres.procOp (h : StepInv I cfg) (p : Proc) : Pres I (procOp cfg p) := by
   unfold Engine.procOp
   have hs := h.stable
-  have hop : Pres I (fun _ st => (.ok (st.obs.any (fun l => l.startsWith "newrecv(" && l.endsWith ")")), st) : M Bool) := fun _ _ hi => hi
+  have hop : Pres I openedReceiver := fun _ _ hi => hi
   repeat (first | exact Pres.procBody h _ _ | exact Pres.modifySys (fun s hi => hs.setPState s _ _ hi) | exact hop | pres_core)
 
 theorem stepAct_inv (h : StepInv I cfg) (s : Sys) (a : Act) (hi : I s) : I (stepAct cfg s a).sys := by
